@@ -1,0 +1,18 @@
+// SPDX-FileCopyrightText: 2026 The Pion community <https://pion.ly>
+// SPDX-License-Identifier: MIT
+
+//go:build verif
+
+// Structural contracts (comment-only) for property C18: the port walk of
+// listenUDPInPortRange gives up on an address only when the address itself cannot
+// be bound; every other bind error (port busy, port protected, ...) concerns one
+// port and the walk goes on to the next one.
+
+package netutil
+
+//@ func IsAddrUnavailable
+//@   props C18
+//@   opt nosafety
+//@   ghostvar seen int = 0
+//@   site call As#1 ghost after seen := errno
+//@   ensures only-address-not-available-ends-the-port-walk: result ==> seen == syscall.EADDRNOTAVAIL
